@@ -8,6 +8,8 @@ Driver for C18.  Protocol (one case):
   ptoken <id hex> <token hex> <role> <enabled 0|1> <expires_at>     pairing tokens after load
   pending <code hex> <expires_at>                                    pending pairing code
   tick <secs>                                                        the pairing clock advances
+  reload                                                             runtime restart: the pairing store is re-opened from its file
+  revoke <id hex>                                                    direct PairingStore::revoke(id)
   req id=<n> type=<hex> auth=<none|s<hex>> eff=<0|1> nonce=<-|hex> params=<missing|nonobj|obj>
       [k=<key hex>:<n|t|f|o|s<hex>>:<good 0|1>]... raw=<hex>         a line that parses as a request
   line <notjson|notreq> [lossy=1] raw=<hex>                          any other line (classified on the
@@ -15,7 +17,8 @@ Driver for C18.  Protocol (one case):
   claimcheck <code hex>                                              direct PairingStore::claim(code, None)
   impl ...                                                           (ignored here)
   end
-For every req/line the model prints `m <reply class> fx=<changed probes|->`, for claimcheck `m ok|fail`.
+For every req/line the model prints `m <reply class> fx=<changed probes|->`, for claimcheck / revoke `m ok|fail`.
+Fields of `req` the model does not read (`cred=`, `valid=`, `lossy=`) feed the oracle in checks/c18.py.
 -/
 namespace TrustVerif.Drv.C18
 open TrustVerif.C18 TrustVerif.C18.Gen TrustVerif.Drv
@@ -138,6 +141,19 @@ def stepLine (st : St) (line : String) : St × Option String :=
       | some p => ({ st with ep := some { ep with pairing := some { p with pending := some (code, exp) } } }, none)
       | none => (st, some "bad-op")
     | _, _, _ => (st, some "bad-op")
+  | ["reload"] =>
+    match st.ep with
+    | some ep => ({ st with ep := some (stepEvent ep .reload).1 }, none)
+    | none => (st, some "bad-op")
+  | ["revoke", id] =>
+    match st.ep, hexString? id with
+    | some ep, some id =>
+      match ep.pairing with
+      | some p =>
+        let (p', ok) := p.revoke ep.now id
+        ({ st with ep := some { ep with pairing := some p' } }, some (if ok then "m ok" else "m fail"))
+      | none => (st, some "bad-op")
+    | _, _ => (st, some "bad-op")
   | ["tick", dt] =>
     match st.ep, dt.toNat? with
     | some ep, some dt => ({ st with ep := some (stepEvent ep (.tick dt)).1 }, none)
